@@ -98,14 +98,14 @@ def buckets(tier):
     bl = []
     for fam in M.FWD_SINGLE:
         bl.append(Bucket('fwd:' + fam, (lambda fam=fam: M.meta_cases(tier, first=fam, families=M.CHEAP_TAIL, max_len=3, Pmin=2)),
-                         prop_forward, {'quick': 20, 'thorough': 500}, nontrivial=_distinct, classes=_classes))
+                         prop_forward, {'quick': 40, 'thorough': 500}, nontrivial=_distinct, classes=_classes))
     bl.append(Bucket('fwd:compose', (lambda: M.meta_cases(tier, max_len=8, Pmin=2)), prop_forward,
-                     {'quick': 25, 'thorough': 600}, nontrivial=_distinct, classes=_classes,
+                     {'quick': 40, 'thorough': 600}, nontrivial=_distinct, classes=_classes,
                      shards={'quick': 6, 'thorough': 12}, weight=4.0))
     for fam in M.REV_SINGLE:
         bl.append(Bucket('rev:' + fam, (lambda fam=fam: M.meta_cases(tier, first=fam, families=M.CHEAP_TAIL, max_len=3, Pmin=2, reverse_mode=True)),
-                         prop_reverse, {'quick': 10, 'thorough': 200}, nontrivial=_distinct, classes=_classes, weight=2.0))
+                         prop_reverse, {'quick': 25, 'thorough': 250}, nontrivial=_distinct, classes=_classes, weight=2.0))
     bl.append(Bucket('rev:compose', (lambda: M.meta_cases(tier, max_len=8, Pmin=2, reverse_mode=True)), prop_reverse,
-                     {'quick': 20, 'thorough': 400}, nontrivial=_distinct, classes=_classes,
+                     {'quick': 30, 'thorough': 400}, nontrivial=_distinct, classes=_classes,
                      shards={'quick': 6, 'thorough': 12}, weight=6.0))
     return bl
